@@ -311,10 +311,15 @@ def main(argv):
     work = scratch()
     try:
         ctx = dict(pid=pid, tier=tier, seed=seed, work=work, coq_ok=coq_ok)
-        for fn in spec["parts"]:
-            if not coq_ok and getattr(fn, "needs_coq", True):
-                continue
-            parts.append(fn(ctx))
+        fns = [fn for fn in spec["parts"] if coq_ok or not getattr(fn, "needs_coq", True)]
+        if spec.get("parallel"):
+            # independent parts (separate databases, separate cases files) side by side
+            from concurrent.futures import ThreadPoolExecutor
+            with ThreadPoolExecutor(max_workers=len(fns) or 1) as ex:
+                parts += list(ex.map(lambda fn: fn(dict(ctx)), fns))
+        else:
+            for fn in fns:
+                parts.append(fn(ctx))
     finally:
         shutil.rmtree(work, ignore_errors=True)
     return finish(pid, tier, seed, t0, proof, parts, spec["rule"], TRUSTED_COMMON + spec.get("trusted", []),
